@@ -56,6 +56,10 @@ var (
 		// the order of the list is not prescribed: oldest first, and the modern version last
 		{"2024-11-05", "2025-03-26", "2025-06-18", "2025-11-25", "2026-07-28"},
 		{"2025-11-25", "2026-07-28"},
+		// a server from the future that lists the very string an application asked for, which this SDK does not know
+		{"2099-12-31", "2026-07-28"},
+		{"2099-12-31"},
+		{"zzz", "2025-06-18"},
 	}
 	c07Inits = []string{"std", "unknown-version", "error", "future-version", "echo", "modern"}
 )
